@@ -145,6 +145,10 @@ def decode_ser_case(data):
     parts = []
     if dec.below(3) == 0:
         parts.append("<!DOCTYPE html>")
+    if dec.below(3) == 0:
+        # declarations in the shapes the meta-charset filter distinguishes (with / without content, charset, other attributes around)
+        parts.append(dec.pick(["<meta http-equiv=content-type>", "<meta id=i http-equiv=Content-Type zz=1>", "<meta charset=x name=n>", "<meta zz=1 http-equiv=content-type content=c a=2>",
+                               "<meta name=d content=e>", "<meta http-equiv=content-type lang=l>"]))
     for _ in range(1 + dec.below(6)):
         tag = dec.pick(S_TAGS)
         names = []
